@@ -475,6 +475,35 @@ def run(ctx):
                     jar[name] = val
                 elif act == "expire":
                     jar.pop(name, None)
+        # ---- a cookie set for another path of the same host is sent to that path (and not to this one)
+        t = suds.transport.http.HttpTransport()
+        srv.httpd.plan = lambda h: {"status": 200, "body": b"<ok/>",
+                                    "headers": [("Set-Cookie", "op=there; Path=/elsewhere"), ("Set-Cookie", "here=1; Path=/svc")]}
+        t.send(suds.transport.Request(srv.url("/svc"), b"<m/>"))
+        srv.httpd.plan = lambda h: {"status": 200, "body": b"<ok/>"}
+        got = {}
+        for path in ("/elsewhere/x", "/svc"):
+            del srv.httpd.seen[:]
+            t.send(suds.transport.Request(srv.url(path), b"<m/>"))
+            got[path] = sorted(hdr(srv.httpd.seen[-1], "Cookie"))
+        ctx.case(("cookie-other-path",), True)
+        if got != {"/elsewhere/x": ["op=there"], "/svc": ["here=1"]}:
+            ctx.fail("cookies sent do not match what earlier responses set for this host", {"history": "cookie for another path"},
+                     got, {"/elsewhere/x": ["op=there"], "/svc": ["here=1"]})
+        # ---- the credentials in force at each send are the ones sent: the same Request again after they were changed
+        t = suds.transport.http.HttpAuthenticated(username="u1", password="p1")
+        req = suds.transport.Request(srv.url(), b"<m/>")
+        recs = []
+        for user, pw in (("u1", "p1"), ("u2", "p2"), ("u2", "")):
+            t.options.username, t.options.password = user, pw
+            del srv.httpd.seen[:]
+            t.send(req)
+            auth = hdr(srv.httpd.seen[-1], "Authorization")
+            recs.append([base64.b64decode(a[6:]).decode("utf-8") if a.startswith("Basic ") else a for a in auth])
+        ctx.case(("cred-resend",), True)
+        if recs != [["u1:p1"], ["u2:p2"], ["u2:"]]:
+            ctx.fail("server does not recover the username and password from the Authorization header",
+                     {"history": "one Request sent again after the credentials changed"}, recs, [["u1:p1"], ["u2:p2"], ["u2:"]])
         # ---- non-HTTP failures propagate unchanged; non-ASCII URLs rejected before any I/O
         closed = socket.socket()
         closed.bind(("127.0.0.1", 0))
